@@ -616,6 +616,8 @@ class Check:
                                           model=(d.get("model") or [""])[min(d.get("first_diff", 0), max(len(d.get("model") or [""]) - 1, 0))][:120])
                                      for d in self.disagree[:5]],
         }
+        if getattr(self, "const_records", None):
+            cov["source_constants"] = self.const_records
         if self.cfg.get("p6"):
             cov["slice_p6_refinement"] = {"fan_out_events_validated": getattr(self, "p6_events", 0),
                                           "cases_not_a_run_of_the_model": getattr(self, "p6_fail", 0)}
@@ -646,6 +648,14 @@ def main_check(prop, tier):
         return 1
     gate = prover.gate(chk.cfg["module"], tier == "thorough", log)
     log("proof gate: %d/%d theorems, ok=%s %s" % (gate["discharged"], gate["obligations"], gate["ok"], gate["failures"]))
+    # source literals the model depends on (secondary tie, DESIGN 3.4)
+    try:
+        from . import consts
+        chk.const_records, cdis = consts.check(prop)
+        for d in cdis:
+            chk.disagree.append(dict(mode="const", stream="source-constants", ops=[d], impl=[d], model=["model constant"], first_diff=0))
+    except Exception as ex:      # the extractor must never take a check down
+        chk.const_records = [{"error": repr(ex)[:200]}]
     # every stream derives its cases from (seed, stream name) alone: a stream's cases do not depend on which
     # other streams the property runs or on how much randomness they consumed, and the same profile gives the
     # same cases to every property that uses it
